@@ -14,7 +14,7 @@
 Require Import Arith List Bool ZArith String QArith Qcanon.
 From TK Require Import Mat_Sums Mat_Core Mat_Qc Equiv_Model Equiv_Spec Equiv_SpecExec
      Equiv_Proof_Perm Equiv_Proof_Rigid Equiv_Proof_Spectral Equiv_Proof_Affine Equiv_Proof_Knn
-     Equiv_Proof_Exec Equiv_Proof_Main Knn_Spec Conn_Model Conn_Spec Conn_Proof_Main Statics.
+     Equiv_Proof_Exec Equiv_Proof_Align Equiv_Proof_Main Knn_Spec Conn_Model Conn_Spec Conn_Proof_Main Statics.
 Import ListNotations.
 Local Open Scope nat_scope.
 
@@ -86,6 +86,33 @@ Theorem perm_local_centered_gram : forall F (Fo : FieldOps F) (Ff : IsField F) n
   meq k k (local_centered_gram k (pact q K) (fun t => p (nb t))) (local_centered_gram k K nb).
 Proof. exact main_perm_local_centered_gram. Qed.
 Print Assumptions perm_local_centered_gram.
+
+(* global alignment matrices of the locally linear family (linear_weight_matrix: KLLE, NPE;
+   tangent_weight_matrix: KLTSA, LLTSA): the triplets summed by sparse_matrix_from_triplets; the
+   local solves / local eigenvectors are oracle values w, Gx indexed by (sample, position) *)
+Theorem perm_alignment_matrices : forall F (Fo : FieldOps F) (Ff : IsField F) n k p q nb
+    (w w' : nat -> nat -> F) (Gx Gx' : nat -> mat F) shift,
+  is_bij n p q -> rows_in_range n nb ->
+  (forall y a, y < n -> w' (p y) a = w y a) ->
+  (forall y a b, y < n -> Gx' (p y) a b = Gx y a b) ->
+  meq n n (klle_M n k (pnbrs p q nb) w' shift) (pact q (klle_M n k nb w shift)) /\
+  meq n n (kltsa_M n k (pnbrs p q nb) Gx' shift) (pact q (kltsa_M n k nb Gx shift)).
+Proof. exact main_perm_alignment_matrices. Qed.
+Print Assumptions perm_alignment_matrices.
+
+(* their rows sum to the nullspace shift (weights sum to one; the local projector contains the
+   constant vector): with shift 0 the hypothesis of translation_lltsa_pencil holds; with the
+   shipped shift eps > 0 it does not, which is defect F42 *)
+Theorem alignment_row_col_sums : forall F (Fo : FieldOps F) (Ff : IsField F) n k nb
+    (w : nat -> nat -> F) (Gx : nat -> mat F) shift,
+  rows_in_range n nb ->
+  (forall x, x < n -> sumn k (fun a => w x a) = 1%F) ->
+  (forall x a, x < n -> a < k -> sumn k (fun b => Gx x a b) = 1%F) ->
+  zero_row_col_sums n (klle_M n k nb w 0%F) /\
+  (forall i, i < n -> sumn n (fun j => klle_M n k nb w shift i j) = shift) /\
+  (forall i, i < n -> sumn n (fun j => kltsa_M n k nb Gx shift i j) = shift).
+Proof. exact main_alignment_row_col_sums. Qed.
+Print Assumptions alignment_row_col_sums.
 
 (* feature-space pencils (NPE, LPP, LLTSA) do not move at all *)
 Theorem perm_pencils : forall F (Fo : FieldOps F) (Ff : IsField F) n p q (W X : mat F) (Dg : vec F) a b,
